@@ -317,20 +317,21 @@ func checkRGBFromLinear(p *Program, r *Report, rule string) {
 	r.SawFn(shortFn(fn))
 	e := NewEngine(p)
 	outs, err := extract(p, e, fn, nil)
-	if err != nil || len(outs) != 2 {
-		r.Violate(rule, "linear.RGBFromLinear", p.FnPos(fn), fmt.Sprintf("expected two paths, got %d %v", len(outs), err))
-		return
+	if err != nil {
+		r.Violate(rule, "linear.RGBFromLinear", p.FnPos(fn), err.Error())
 	}
-	aAtom := formAtom("invoke:RGBA#3(c)")
+	aKey := "invoke:RGBA#3(c)"
+	sawZero, sawGeneral := false, false
 	for _, o := range outs {
 		tp, _ := o.Ret.(Tuple)
-		c := o.St.conds[0]
-		if len(tp) != 2 || valKey(c.A) != aAtom.Key() || valKey(c.B) != "0" {
-			r.Violate(rule, "linear.RGBFromLinear guard", p.Pos(o.Pos), "guard is "+trunc(c.Key(), 120))
+		ac, ok := alphaCaseOf(o, aKey)
+		if len(tp) != 2 || !ok {
+			r.Violate(rule, "linear.RGBFromLinear guard", p.Pos(o.Pos), "guard is ["+trunc(condKeys(o), 120)+"]; the only case split is on the value of the colour's alpha")
 			continue
 		}
 		a, _ := tp[1].(*Form)
-		if c.Op == "==" {
+		if ac.zero {
+			sawZero = true
 			zero := a != nil && a.Equal(formInt(0))
 			for i := range chanNames {
 				f, ok := formAt(tp[0], i)
@@ -341,13 +342,22 @@ func checkRGBFromLinear(p *Program, r *Report, rule string) {
 			r.Check(zero, rule, "linear.RGBFromLinear transparent", p.Pos(o.Pos), "a == 0 ↦ zero colour, alpha 0", "transparent colour decodes to "+trunc(valKey(o.Ret), 120))
 			continue
 		}
+		if !ac.nonZero {
+			r.Violate(rule, "linear.RGBFromLinear guard", p.Pos(o.Pos), "a path un-premultiplies without having excluded a == 0")
+			continue
+		}
+		if len(ac.sub) == 0 {
+			sawGeneral = true
+		}
+		aAtom := formAtom(aKey).Subst(ac.sub)
 		for i, ch := range chanNames {
 			f, ok := formAt(tp[0], i)
 			want := formAtom(fmt.Sprintf("invoke:RGBA#%d(c)", i)).Div(aAtom)
-			r.Check(ok && f.Equal(want), rule, "linear.RGBFromLinear "+ch, p.Pos(o.Pos), "= "+strings.ToLower(ch)+"/a", "channel is "+trunc(valKey(f), 160))
+			r.Check(ok && f.Subst(ac.sub).Equal(want), rule, "linear.RGBFromLinear "+ch+ac.tag, p.Pos(o.Pos), "= "+strings.ToLower(ch)+"/a", "channel is "+trunc(valKey(f), 160))
 		}
-		r.Check(a != nil && a.Equal(aAtom.Div(formInt(65535))), rule, "linear.RGBFromLinear alpha", p.Pos(o.Pos), "alpha = a/65535", "alpha is "+trunc(valKey(tp[1]), 120))
+		r.Check(a != nil && a.Subst(ac.sub).Equal(aAtom.Div(formInt(65535))), rule, "linear.RGBFromLinear alpha"+ac.tag, p.Pos(o.Pos), "alpha = a/65535", "alpha is "+trunc(valKey(tp[1]), 120))
 	}
+	r.Check(sawZero && sawGeneral, rule, "linear.RGBFromLinear cases", p.FnPos(fn), "the a == 0 case and the general case both exist", fmt.Sprintf("zero case found: %v, general case found: %v", sawZero, sawGeneral))
 }
 
 // checkColorFuncs: LineariseColor = ToLinearRGBA64(ColorFromEncodedColor),
